@@ -405,4 +405,39 @@ theorem marshalActs_exact (sub : V → R (Bytes × V)) : ∀ (acts : List V) (pr
     rw [this]
     simp only [List.flatten_cons, List.append_assoc, List.length_append, Nat.sub_sub]
 
+/-! ### hello elements: the version bitmaps on the wire -/
+
+/-- the version bitmaps of a hello element on the wire: 32 bits each, big-endian, in list order -/
+def bitmapBytes (bms : List V) : Bytes := (bms.map (fun b => be32 (n32 b.asNat))).flatten
+
+theorem bitmapBytes_length (bms : List V) : (bitmapBytes bms).length = 4 * bms.length := by
+  induction bms with
+  | nil => rfl
+  | cons b r ih =>
+    have : bitmapBytes (b :: r) = be32 (n32 b.asNat) ++ bitmapBytes r := rfl
+    rw [this, List.length_append, ih, be32_length, List.length_cons]; omega
+
+/-- the pieces `HelloElemVersionBitmap.MarshalBinary` writes after the header: 4 bytes per bitmap, exactly `bitmapBytes` -/
+theorem bitmapPieces (bms : List V) :
+    piecesLen (bms.map (fun b => pU32 b.asNat)) = 4 * bms.length ∧
+    piecesBytes (bms.map (fun b => pU32 b.asNat)) = bitmapBytes bms ∧
+    ∀ p ∈ bms.map (fun b => pU32 b.asNat), p.Tight := by
+  induction bms with
+  | nil => exact ⟨rfl, rfl, by intro p hp; simp at hp⟩
+  | cons b r ih =>
+    obtain ⟨a, c, d⟩ := ih
+    refine ⟨?_, ?_, ?_⟩
+    · have : piecesLen ((b :: r).map (fun b => pU32 b.asNat)) = 4 + piecesLen (r.map (fun b => pU32 b.asNat)) := by
+        simp [piecesLen, pU32, Piece.adv]
+      rw [this, a, List.length_cons]; omega
+    · have : piecesBytes ((b :: r).map (fun b => pU32 b.asNat)) =
+          be32 (n32 b.asNat) ++ piecesBytes (r.map (fun b => pU32 b.asNat)) := by
+        simp [piecesBytes, pU32, Piece.bytes]
+      rw [this, c]; rfl
+    · intro p hp
+      simp only [List.map_cons, List.mem_cons] at hp
+      rcases hp with rfl | hp
+      · trivial
+      · exact d p hp
+
 end OFV.Elem
